@@ -21,6 +21,7 @@ import (
 	"github.com/cosmos/cosmos-sdk/x/authz"
 	govtypes "github.com/cosmos/cosmos-sdk/x/gov/types"
 	govv1 "github.com/cosmos/cosmos-sdk/x/gov/types/v1"
+	"github.com/cosmos/cosmos-sdk/x/group"
 
 	beacontypes "github.com/unification-com/mainchain/x/beacon/types"
 	enttypes "github.com/unification-com/mainchain/x/enterprise/types"
@@ -332,7 +333,14 @@ type GovModel struct {
 
 // ---------------------------------------------------------------------------------------------
 
+// GroupModel: x/group policies created so far (their accounts sign through proposals).
+type GroupModel struct {
+	N     uint64
+	Admin map[uint64]string
+}
+
 type Models struct {
+	Grp *GroupModel
 	Ent *EntModel
 	Wrk *RegModel
 	Bcn *RegModel
@@ -380,6 +388,7 @@ func NewModels(w *World) *Models {
 	m.Bcn = &RegModel{Kind: "bcn", P: k.Beacon, NextID: k.StartBeacon, Regs: map[uint64]*Reg{}}
 	m.Str = &StreamModel{ValFee: ratOfDec(k.ValFee), Streams: map[string]*Stream{}}
 	m.Gov = &GovModel{Pending: map[uint64]*Proposal{}}
+	m.Grp = &GroupModel{Admin: map[uint64]string{}}
 	return m
 }
 
@@ -804,8 +813,65 @@ func (m *Models) afterTx(w *World, tx *TxCtx) {
 			}
 			continue
 		}
+		switch gm := lf.Msg.(type) {
+		case *group.MsgCreateGroupWithPolicy:
+			m.Grp.N++
+			m.Grp.Admin[m.Grp.N] = gm.Admin
+			if got := eventAttr(tx.Resp.Events, "cosmos.group.v1.EventCreateGroupPolicy", "address"); got != PolicyAddr(m.Grp.N).String() {
+				w.Ev("GROUP-POLICY-ADDRESS-MISMATCH %d %s", m.Grp.N, got)
+				w.Probe("harness.group-policy-address-mismatch")
+			}
+			continue
+		case *group.MsgSubmitProposal:
+			// executed inside this transaction only if the proposal passed and all its messages
+			// succeeded (EXEC_TRY); a failed execution leaves the transaction successful
+			if eventAttr(tx.Resp.Events, "cosmos.group.v1.EventExec", "result") == "PROPOSAL_EXECUTOR_RESULT_SUCCESS" {
+				if inner, err := gm.GetMsgs(); err == nil {
+					for _, il := range Flatten(inner) {
+						m.Apply(il.Msg, w.Now, w.BlockIdx)
+						w.St.OpOutcome[msgKind(il.Msg)+"/ok-via-group"]++
+					}
+				}
+				w.Probe("group.proposal-executed")
+			} else {
+				w.Probe("group.proposal-not-executed")
+			}
+			continue
+		}
 		m.Apply(lf.Msg, w.Now, w.BlockIdx)
 	}
+}
+
+// eventAttr returns the (unquoted) value of the first attribute key of the first event of a type.
+func eventAttr(evs []abci.Event, typ, key string) string {
+	for _, e := range evs {
+		if e.Type != typ {
+			continue
+		}
+		for _, a := range e.Attributes {
+			if a.Key == key {
+				return strings.Trim(a.Value, "\"")
+			}
+		}
+	}
+	return ""
+}
+
+// FlattenDeep is Flatten that also looks inside x/group proposals submitted with EXEC_TRY (their
+// messages run inside the submitting transaction when the proposal passes at once).
+func FlattenDeep(msgs []sdk.Msg) (leaves []Leaf, viaGroup int) {
+	for _, lf := range Flatten(msgs) {
+		if sp, ok := lf.Msg.(*group.MsgSubmitProposal); ok && sp.Exec == group.Exec_EXEC_TRY {
+			if inner, err := sp.GetMsgs(); err == nil {
+				in := Flatten(inner)
+				viaGroup += len(in)
+				leaves = append(leaves, in...)
+				continue
+			}
+		}
+		leaves = append(leaves, lf)
+	}
+	return leaves, viaGroup
 }
 
 func (m *Models) afterEnd(w *World, _ abci.ResponseEndBlock) {
